@@ -2,51 +2,87 @@
 (***************************************************************************)
 (* C19: agents that take their truth state from an importer database.      *)
 (*                                                                         *)
-(* Mirrors Scenario.stepForward (registration of non-realtime agents),     *)
-(* dynamics/importer.py:EphemerisImporter.importEphemerides,               *)
-(* CentralizedTaskingEngine.loadImportedObservations and the routing of    *)
-(* the loaded observations to the EstUpdate job of their target.           *)
+(* Mirrors Scenario.stepForward (registration of non-realtime agents, the  *)
+(* loop over the tasking engines, obs_dict -> EstUpdateRegistration),      *)
+(* dynamics/importer.py:EphemerisImporter.importEphemerides and            *)
+(* CentralizedTaskingEngine.loadImportedObservations (called from assess). *)
 (*                                                                         *)
-(* The configuration (agent sets, which agents are imported, the rows of   *)
-(* the importer database - possibly with unrelated agents and with gaps -, *)
-(* its observation rows) is a VARIABLE fixed by Init, so that exhaustive   *)
-(* exploration (all row sets) and trace validation (one configuration per  *)
-(* recorded run) use the same actions.                                     *)
+(* The configuration (agent sets, which agents are imported, the Epoch     *)
+(* rows and ephemeris rows of the importer database - possibly with        *)
+(* unrelated agents, with gaps for some agents, with epochs that are       *)
+(* absent ALTOGETHER -, its observation rows, the tasking engines with     *)
+(* their sensor partition and target lists) is a VARIABLE fixed by Init,   *)
+(* so that exhaustive exploration (all row sets) and trace validation (one *)
+(* configuration per recorded run) use the same actions.                   *)
 (*                                                                         *)
 (* held[a] = <<source, epoch>>: where agent a's current truth state comes  *)
 (* from ("init", "realtime", "import") and which epoch it belongs to.      *)
+(* reached[o] = how many times observation row o has been handed to the    *)
+(* filter update of its target in the current step.                        *)
 (*                                                                         *)
 (* Properties: ImportFaithful, NoStaleState (= a gap raises instead of     *)
-(* continuing), ObsReachFilter, ImporterReadOnly.                          *)
-(* Named deviation: CountBasedCheck (D9, as coded): completeness is judged *)
-(* by comparing COUNTS of rows and registered agents.                      *)
+(* continuing - whether the record is missing for one agent or the whole   *)
+(* epoch is missing from the database), ObsReachFilter (every stored       *)
+(* observation of the epoch reaches its target's filter exactly once,      *)
+(* whichever engines own the sensor and the target), ImporterReadOnly.     *)
+(* Named deviations (each must be refuted by TLC):                         *)
+(*   CountBasedCheck     (D9, as once coded) completeness judged by COUNTS *)
+(*   SkipEpochWithoutRow the Epoch row is resolved first; "nothing to      *)
+(*                       import" when the database has no such epoch       *)
+(*   LoadEveryEngine     (D28, as once coded) every engine loads every     *)
+(*                       observation of the epoch                          *)
+(*   LoadOnlyOwnTargets  an engine loads only observations made by its own *)
+(*                       sensors of its own targets                        *)
 (***************************************************************************)
 EXTENDS Integers, Sequences, FiniteSets, TLC
 
-CONSTANTS Configs,          \* set of configuration records explored in model-checking mode
-          CountBasedCheck   \* D9 as coded
+CONSTANTS Configs,              \* set of configuration records explored in model-checking mode
+          CountBasedCheck,      \* D9 as coded
+          SkipEpochWithoutRow,
+          LoadEveryEngine,      \* D28 as coded
+          LoadOnlyOwnTargets
 
-VARIABLES cfg,      \* [agents, imported, targets, rows: set of <<a, k>>, obs: set of <<k, t, s>>, nsteps,
-                    \*  born: [agents -> step in which the agent joins the scenario (0 = from the start)]]
+VARIABLES cfg,      \* [agents, imported, targets, nsteps,
+                    \*  epochs: set of step indices for which the importer database has an Epoch row,
+                    \*  rows: set of <<a, k>> (ephemeris records), obs: set of <<k, t, s>> (observation records),
+                    \*  born: [agents -> step in which the agent joins the scenario (0 = from the start)],
+                    \*  engines: set of engine ids, sensorOf: [sensors -> engine], tracks: [engines -> SUBSET targets]]
           k, pc,
           held,     \* [agents -> <<source, epoch>>]
           registered,
-          reached,  \* [targets -> set of <<k, t, s>>] observations handed to the filter update this step
-          impdb     \* the importer database as the run leaves it: <<rows, obs>>
-vars == <<cfg, k, pc, held, registered, reached, impdb>>
+          done,     \* engines that have assessed (and loaded their imported observations) this step
+          reached,  \* [obs -> number of times handed to the filter update of the observed target this step]
+          impdb     \* the importer database as the run leaves it: <<epochs, rows, obs>>
+vars == <<cfg, k, pc, held, registered, done, reached, impdb>>
+
+SensorsIn(c) == c.agents \ c.targets
+\* what an importer database / scenario pair looks like: records hang on Epoch rows (foreign key), observations are
+\* of targets by sensors of the scenario, every sensor is tasked by exactly one engine, every target by at least one
+WellFormed(c) ==
+  /\ c.imported \subseteq c.agents /\ c.targets \subseteq c.agents
+  /\ \A r \in c.rows : r[2] \in c.epochs
+  /\ \A o \in c.obs : o[1] \in c.epochs /\ o[2] \in c.targets /\ o[3] \in SensorsIn(c)
+  /\ DOMAIN c.sensorOf = SensorsIn(c) /\ \A s \in SensorsIn(c) : c.sensorOf[s] \in c.engines
+  /\ DOMAIN c.tracks = c.engines /\ \A t \in c.targets : \E e \in c.engines : t \in c.tracks[e]
 
 InitWith(c) ==
+  /\ WellFormed(c)
   /\ cfg = c /\ k = 0 /\ pc = "idle"
   /\ held = [a \in c.agents |-> <<"init", 0>>]
   /\ registered = {}
-  /\ reached = [t \in c.targets |-> {}]
-  /\ impdb = <<c.rows, c.obs>>
+  /\ done = {}
+  /\ reached = [o \in c.obs |-> 0]
+  /\ impdb = <<c.epochs, c.rows, c.obs>>
 Init == \E c \in Configs : InitWith(c)
 
 \* agents that take part in step j (an agent added by an event of step j is propagated / imported in step j)
 Active(j) == {a \in cfg.agents : cfg.born[a] <= j}
 RowsAt(j) == {r \in cfg.rows : r[2] = j}
 HasRow(a, j) == <<a, j>> \in cfg.rows
+SensorsOf(e) == {s \in SensorsIn(cfg) : cfg.sensorOf[s] = e}
+\* the whole epoch is absent from the importer database: a hole across all agents, a database sampled more coarsely
+\* than the physics step, a database that ends before the scenario does
+EpochAbsent(j) == j \notin cfg.epochs
 
 \* ticToc; realtime agents are propagated by jobs, the others register with the importer
 BeginStep ==
@@ -54,47 +90,64 @@ BeginStep ==
   /\ k' = k + 1
   /\ registered' = cfg.imported \cap Active(k + 1)          \* every imported agent currently in the scenario, each step anew
   /\ held' = [a \in cfg.agents |-> IF a \in cfg.imported \/ a \notin Active(k + 1) THEN held[a] ELSE <<"realtime", k + 1>>]
-  /\ reached' = [t \in cfg.targets |-> {}]
+  /\ done' = {}
+  /\ reached' = [o \in cfg.obs |-> 0]
   /\ pc' = "registered"
   /\ UNCHANGED <<cfg, impdb>>
 
 Complete == IF CountBasedCheck
               THEN Cardinality(RowsAt(k)) >= Cardinality(registered)
               ELSE \A a \in registered : HasRow(a, k)
+\* deviation: "the database holds no data at this epoch, nothing to import"
+EpochSkipped == SkipEpochWithoutRow /\ EpochAbsent(k)
+\* what the agents hold after importEphemerides went through
+AfterImport == [a \in cfg.agents |-> IF a \in registered /\ HasRow(a, k) THEN <<"import", k>> ELSE held[a]]
 
 \* importEphemerides: every registered agent with a row takes the row's state
 ImportOk ==
-  /\ pc = "registered" /\ cfg.imported # {} /\ Complete
-  /\ held' = [a \in cfg.agents |-> IF a \in registered /\ HasRow(a, k) THEN <<"import", k>> ELSE held[a]]
+  /\ pc = "registered" /\ cfg.imported # {} /\ (Complete \/ EpochSkipped)
+  /\ held' = AfterImport
   /\ registered' = {a \in registered : ~HasRow(a, k)}
   /\ pc' = "imported"
-  /\ UNCHANGED <<cfg, k, reached, impdb>>
+  /\ UNCHANGED <<cfg, k, done, reached, impdb>>
 
 \* a scenario whose agents are all realtime has no ephemeris importer at all
 SkipImport ==
   /\ pc = "registered" /\ cfg.imported = {}
   /\ pc' = "imported"
-  /\ UNCHANGED <<cfg, k, held, registered, reached, impdb>>
+  /\ UNCHANGED <<cfg, k, held, registered, done, reached, impdb>>
 
 \* MissingEphemerisError: the run stops
 ImportMissing ==
-  /\ pc = "registered" /\ ~Complete
+  /\ pc = "registered" /\ cfg.imported # {} /\ ~(Complete \/ EpochSkipped)
   /\ pc' = "raised"
-  /\ UNCHANGED <<cfg, k, held, registered, reached, impdb>>
+  /\ UNCHANGED <<cfg, k, held, registered, done, reached, impdb>>
 
-\* loadImportedObservations + routing into the EstUpdate job of the observed target
-LoadObs ==
-  /\ pc = "imported"
-  /\ reached' = [t \in cfg.targets |-> {o \in cfg.obs : o[1] = k /\ o[2] = t}]
+\* engine e's assess(): loadImportedObservations, then Scenario files them under the observed target (obs_dict)
+Loads(e) == {o \in cfg.obs : /\ o[1] = k
+                             /\ (LoadEveryEngine \/ o[3] \in SensorsOf(e))
+                             /\ (LoadOnlyOwnTargets => o[2] \in cfg.tracks[e])}
+LoadObs(e) ==
+  /\ pc = "imported" /\ e \in cfg.engines \ done
+  /\ done' = done \cup {e}
+  /\ reached' = [o \in cfg.obs |-> IF o \in Loads(e) THEN reached[o] + 1 ELSE reached[o]]
+  /\ UNCHANGED <<cfg, k, pc, held, registered, impdb>>
+
+\* after the last engine: one EstUpdate job per estimate, fed with everything filed under its target
+UpdateFilters ==
+  /\ pc = "imported" /\ done = cfg.engines
   /\ pc' = "loaded"
-  /\ UNCHANGED <<cfg, k, held, registered, impdb>>
+  /\ UNCHANGED <<cfg, k, held, registered, done, reached, impdb>>
 
 EndStep ==
   /\ pc = "loaded"
   /\ pc' = "idle"
-  /\ UNCHANGED <<cfg, k, held, registered, reached, impdb>>
+  /\ UNCHANGED <<cfg, k, held, registered, done, reached, impdb>>
 
-Next == BeginStep \/ ImportOk \/ SkipImport \/ ImportMissing \/ LoadObs \/ EndStep
+\* the engines assess one after the other (dictionary order in the code; the outcome does not depend on the order)
+LoadObsSome == \E e \in cfg.engines : LoadObs(e)
+
+Next == BeginStep \/ ImportOk \/ SkipImport \/ ImportMissing \/ LoadObsSome \/ UpdateFilters \/ EndStep
 Spec == Init /\ [][Next]_vars
 
 \* after a successful import every imported agent holds the database record of THIS epoch
@@ -103,9 +156,12 @@ ImportFaithful ==
 \* ... in particular the run never continues with a stale state: a gap must raise
 NoStaleState ==
   pc \in {"imported", "loaded", "idle"} => \A a \in cfg.imported \cap Active(k) : held[a][2] = k
-\* stored observations of the epoch reach the filter of their target at that epoch
+\* stored observations of the epoch reach the filter of their target at that epoch - each exactly once, none of another epoch
+ExpectedCount(o) == IF o[1] = k THEN 1 ELSE 0
 ObsReachFilter ==
-  pc = "loaded" => \A t \in cfg.targets : reached[t] = {o \in cfg.obs : o[1] = k /\ o[2] = t}
+  pc = "loaded" => \A o \in cfg.obs : o[2] \in Active(k) => reached[o] = ExpectedCount(o)
 \* the importer database is never modified by a run
 ImporterReadOnly == [][impdb' = impdb]_vars
+\* an observation whose sensor is tasked by an engine that does not track its target
+CrossEngine(o) == o[2] \notin cfg.tracks[cfg.sensorOf[o[3]]]
 =============================================================================
